@@ -189,7 +189,7 @@ fn u32_case(i: u64) -> Option<U32Arg> {
 // ---------------------------------------------------------------- generators
 
 /// tail-family shapes only
-const TAIL_SHAPES: &[u8] = &[0, 1, 5, 6, 7, 8, 10, 2, 3, 4];
+const TAIL_SHAPES: &[u8] = &[0, 1, 5, 6, 7, 8, 10, 2, 3, 4, 14, 14, 12, 13];
 
 fn round_strategy(max_len: usize) -> BoxedStrategy<RoundCase> {
     (gen::digspec_shapes(max_len, TAIL_SHAPES), any::<bool>(), gen::scale_strategy(5000), 0..10u8, any::<u16>(), -6i64..=6, 0..7u8, 0..20u8)
@@ -268,6 +268,23 @@ pub fn run(ctx: &Ctx) {
         true,
         &format!("EXHAUSTIVE: every |n| < {} x scale -3..8 x every target scale from 4 left of the leading digit to 4 right of the last x 7 modes", limit),
         move |i| small_case(i, limit),
+        check_round,
+    );
+    let max_k = t.pick(3000u64, 6000);
+    ctx.enumerated(
+        "discard-count-sweep",
+        "round",
+        max_k * 7 * 2,
+        true,
+        &format!("EXHAUSTIVE: a {}-digit value, every number of discarded digits 1..={} x 7 modes x both signs (and every extension 1..={} through C18)", max_k + 40, max_k, max_k),
+        move |i| {
+            let k = 1 + (i % max_k) as i64;
+            let mode = ((i / max_k) % 7) as u8;
+            let neg = i / (max_k * 7) == 1;
+            // digits: pseudo-random, fixed per sign
+            let digits = gen::digits_of(&gen::DigSpec { shape: 0, len: max_k as usize + 40, head: vec![], seed: 0x5eed + neg as u64, aux: 0 });
+            Some(RoundCase { d: D::new(if neg { format!("-{}", digits) } else { digits }, 17), new_scale: 17 - k, mode })
+        },
         check_round,
     );
     let max_len = t.pick(600usize, 3000);
